@@ -853,3 +853,563 @@ impl Prop for C16 {
         ])
     }
 }
+
+// ------------------------------------------------------------------------------------ C13 (loop)
+
+/// The scanners used the way a tokenizer uses them: scan, advance over the token and a separator,
+/// scan again ... on ONE reader, so that state is carried from token to token (cursor deep inside
+/// the buffer, realigns, refills in the middle of a token, chunk size changes, marks).
+#[derive(Clone, Debug)]
+pub struct LoopCase {
+    pub ty: u8,
+    pub signed_fn: bool,
+    pub data: Vec<u8>,
+    pub chunk: usize,
+    pub src: SourceCfg,
+    /// per token: bit 0 = use the _multi variant, bits 1.. = scan offset (0..=3) inside the separator run
+    pub choices: Vec<u8>,
+    /// (token index, new chunk size): chunk size changes in mid-stream
+    pub rechunk: Vec<(usize, usize)>,
+}
+
+pub struct C13Loop;
+
+impl Prop for C13Loop {
+    type Case = LoopCase;
+    fn id(&self) -> &'static str {
+        "C13t"
+    }
+    fn meta(&self) -> Meta {
+        Meta {
+            level: "exploration",
+            rule: "tokenizer loops: a stream of 3..200 (rarely 5000) decimal tokens (all integer types, limits, 7/8/9/16/17 digits, leading zeros, '-') separated by 1..4 arbitrary non-digit bytes is scanned token by token on ONE DeferredReader over a SimSource (read plan, chunk size 1..65536, chunk size changes in mid-stream): scan at a small offset into the separator run with the _multi or the simple variant, compare value and offset with the decimal-string reference at the absolute position, advance over the token and one separator, repeat; non-trivial iff at least two tokens were scanned after a refill; distinct = distinct (type, family, data, plan)",
+            assumptions: vec!["same decimal-string reference as the single-call check"],
+            real: vec!["flussab::text::{ascii_digits, ascii_digits_multi, signed_ascii_digits, signed_ascii_digits_multi}", "flussab::DeferredReader (advance / realign / refill between scans)"],
+            stub: vec!["byte source (SimSource)"],
+        }
+    }
+    fn runs(&self, tier: Tier) -> u64 {
+        match (tier, cfg!(debug_assertions)) {
+            (Tier::Quick, true) => 200_000,
+            (Tier::Quick, false) => 200_000,
+            (Tier::Thorough, true) => 12_000_000,
+            (Tier::Thorough, false) => 12_000_000,
+        }
+    }
+    fn gen(&self, rng: &mut Rng, _tier: Tier) -> LoopCase {
+        let ty = rng.below(12) as u8;
+        let signed_fn = rng.chance(3, 5);
+        let ntok = if !cfg!(miri) && rng.chance(1, 300) {
+            rng.range(2000, 5000)
+        } else if cfg!(miri) {
+            rng.range(2, 8)
+        } else {
+            rng.range(3, 200)
+        };
+        let mut data = vec![];
+        let mut choices = vec![];
+        for _ in 0..ntok {
+            let nsep = 1 + rng.below(4);
+            for _ in 0..nsep {
+                data.push(match rng.below(6) {
+                    0 => rng.next_u64() as u8,
+                    1 => *rng.pick(&[0x2fu8, 0x3a, 0xb0, 0xb9, 0x00, 0xff]),
+                    _ => *rng.pick(b" \n\t,;:x-"),
+                });
+                // separators must not be digits (they would merge tokens: still fine for the
+                // reference, but keep the token structure)
+                if data.last().map_or(false, |b| b.is_ascii_digit()) {
+                    *data.last_mut().unwrap() = b' ';
+                }
+            }
+            choices.push((rng.below(2) as u8) | ((rng.below(nsep.min(4)) as u8) << 1));
+            data.extend(gen_number(rng, ty));
+        }
+        if rng.chance(1, 2) {
+            data.push(b'\n');
+        }
+        let interrupts = rng.weighted(&[6, 2, 1]) as u8;
+        let src = gen_plan(rng, data.len(), &[], interrupts);
+        let nre = rng.below(3);
+        LoopCase {
+            ty,
+            signed_fn,
+            chunk: *rng.pick(&[1usize, 2, 3, 7, 8, 9, 16, 17, 64, 300, 4096, 16384, 65536]),
+            src,
+            choices,
+            rechunk: (0..nre)
+                .map(|_| (rng.below(ntok), *rng.pick(&[1usize, 4, 8, 16, 64, 1000, 16384])))
+                .collect(),
+            data,
+        }
+    }
+    fn exec(&self, case: &LoopCase, st: &mut Stats) -> RunOut {
+        let data = Rc::new(case.data.clone());
+        let src = SimSource::new(data.clone(), case.src.clone());
+        let mut r = DeferredReader::from_read(src.clone());
+        r.set_chunk_size(case.chunk.max(1));
+        let tyname = TYPES[case.ty as usize % 12];
+        let fam = if case.signed_fn { "signed_ascii_digits" } else { "ascii_digits" };
+        let mut abs = 0usize;
+        let mut violation = None;
+        let mut t = Fnv::default();
+        let mut after_refill = 0u32;
+        for (i, &ch) in case.choices.iter().enumerate() {
+            for &(at, c) in &case.rechunk {
+                if at == i {
+                    r.set_chunk_size(c.max(1));
+                }
+            }
+            let multi = ch & 1 == 1;
+            let o = (ch >> 1) as usize;
+            if abs + o > data.len() {
+                break;
+            }
+            let calls_before = src.state().c.ok_calls;
+            let res = call_scanner(&mut r, case.ty, case.signed_fn, multi, o);
+            st.steps += 1;
+            let expect = reference_scan(&data, abs + o, case.signed_fn, case.ty);
+            let fname = format!("{fam}{}::<{tyname}>", if multi { "_multi" } else { "" });
+            let ctx = |what: String| {
+                format!(
+                    "token #{i} at stream offset {} (scan offset {o}, {:?}...): {what}",
+                    abs + o,
+                    show_bytes(&data[(abs + o).min(data.len())..(abs + o + 24).min(data.len())])
+                )
+            };
+            match res {
+                Err(p) => {
+                    violation = Some(Violation {
+                        check: "C13.panic",
+                        signature: format!("{fname} panics in a tokenizer loop"),
+                        detail: ctx(p),
+                    });
+                }
+                Ok((val, off)) => {
+                    t.str(&format!("{val:?}{off}"));
+                    if off + abs != expect.1 {
+                        violation = Some(Violation {
+                            check: "C13.offset",
+                            signature: format!("{fname} returns a wrong offset in a tokenizer loop"),
+                            detail: ctx(format!("returned offset {off}, expected {}", expect.1 - abs)),
+                        });
+                    } else if val != expect.0 {
+                        violation = Some(Violation {
+                            check: "C13.value",
+                            signature: format!("{fname} returns a wrong value / overflow verdict in a tokenizer loop"),
+                            detail: ctx(format!("returned {val:?}, expected {:?}", expect.0)),
+                        });
+                    } else if r.position() != abs {
+                        violation = Some(Violation {
+                            check: "C13.consumed",
+                            signature: format!("{fname} consumed input"),
+                            detail: ctx(format!("position()={} expected {abs}", r.position())),
+                        });
+                    }
+                    if violation.is_none() {
+                        if src.state().c.ok_calls > calls_before {
+                            after_refill += 1;
+                        }
+                        // advance over the token and one separator byte, like a tokenizer would
+                        let want = off + 1;
+                        let have = r.request(want).len();
+                        let n = want.min(have);
+                        if n == 0 {
+                            break;
+                        }
+                        r.advance(n);
+                        abs += n;
+                    }
+                }
+            }
+            if violation.is_some() {
+                break;
+            }
+        }
+        let s = src.state();
+        st.steps += s.c.calls;
+        st.add("fault.short_read", s.c.short_reads);
+        st.add("fault.interrupted", s.c.interrupted);
+        if s.budget_exceeded {
+            violation = None;
+        }
+        t.u64(s.trace.0);
+        let mut k = Fnv::default();
+        k.byte(case.ty);
+        k.byte(case.signed_fn as u8);
+        k.bytes(&case.data);
+        k.u64(s.trace.0);
+        RunOut {
+            violation,
+            key: if after_refill >= 2 { Some(k.0) } else { None },
+            trace: t.0,
+        }
+    }
+    fn shrink(&self, case: &LoopCase) -> Vec<LoopCase> {
+        let mut out = vec![];
+        if case.src.rank() > 0 {
+            for p in [SourceCfg::one_shot(), SourceCfg::bytewise()] {
+                if p.rank() < case.src.rank() {
+                    let mut c = case.clone();
+                    c.src = p;
+                    out.push(c);
+                }
+            }
+        }
+        if !case.rechunk.is_empty() {
+            let mut c = case.clone();
+            c.rechunk.clear();
+            out.push(c);
+        }
+        // cut the stream at separator boundaries (keep a prefix / drop a prefix)
+        let n = case.choices.len();
+        if n > 1 {
+            let mut c = case.clone();
+            c.choices.truncate(n / 2);
+            out.push(c);
+            let mut c = case.clone();
+            c.choices.truncate(n - 1);
+            out.push(c);
+        }
+        for keep in [case.data.len() / 2, case.data.len().saturating_sub(1)] {
+            if keep < case.data.len() {
+                let mut c = case.clone();
+                c.data.truncate(keep);
+                out.push(c);
+            }
+        }
+        if case.chunk != 1 {
+            let mut c = case.clone();
+            c.chunk = 1;
+            out.push(c);
+        }
+        out
+    }
+    fn encode(&self, case: &LoopCase, kv: &mut Kv) {
+        kv.put("case.type", TYPES[case.ty as usize % 12]);
+        kv.put("case.ty", case.ty);
+        kv.put("case.signed_fn", case.signed_fn);
+        kv.put("case.data", hex(&case.data));
+        kv.put("case.data_readable", show_bytes(&case.data));
+        kv.put("case.chunk", case.chunk);
+        kv.put("case.src", case.src.encode());
+        kv.put("case.choices", hex(&case.choices));
+        kv.put(
+            "case.rechunk",
+            case.rechunk
+                .iter()
+                .map(|(a, b)| format!("{a}:{b}"))
+                .collect::<Vec<_>>()
+                .join(","),
+        );
+    }
+    fn decode(&self, kv: &Kv) -> Option<LoopCase> {
+        Some(LoopCase {
+            ty: kv.get("case.ty")?.parse().ok()?,
+            signed_fn: kv.get("case.signed_fn")? == "true",
+            data: kv.get_bytes("case.data")?,
+            chunk: kv.get_usize("case.chunk")?,
+            src: SourceCfg::decode(kv.get("case.src")?)?,
+            choices: kv.get_bytes("case.choices")?,
+            rechunk: kv
+                .get("case.rechunk")
+                .unwrap_or("")
+                .split(',')
+                .filter(|s| !s.is_empty())
+                .map(|s| {
+                    let (a, b) = s.split_once(':')?;
+                    Some((a.parse().ok()?, b.parse().ok()?))
+                })
+                .collect::<Option<Vec<_>>>()?,
+        })
+    }
+    fn sample(&self, case: &LoopCase) -> Json {
+        Json::obj(vec![
+            (
+                "scanner",
+                Json::s(format!(
+                    "{}[_multi]::<{}> in a tokenizer loop",
+                    if case.signed_fn { "signed_ascii_digits" } else { "ascii_digits" },
+                    TYPES[case.ty as usize % 12]
+                )),
+            ),
+            ("tokens", Json::U(case.choices.len() as u64)),
+            ("input", Json::s(show_bytes(&case.data))),
+            ("chunk", Json::U(case.chunk as u64)),
+            ("plan", Json::s(case.src.encode())),
+        ])
+    }
+}
+
+// ------------------------------------------------------------------------------------ C16 (loop)
+
+/// The text helpers called repeatedly on ONE reader with advances in between.
+#[derive(Clone, Debug)]
+pub struct HelperLoopCase {
+    pub data: Vec<u8>,
+    pub chunk: usize,
+    pub src: SourceCfg,
+    /// per step: (helper, offset, pattern selector, advance selector)
+    pub steps: Vec<(u8, u8, u8, u8)>,
+}
+
+pub struct C16Loop;
+
+impl Prop for C16Loop {
+    type Case = HelperLoopCase;
+    fn id(&self) -> &'static str {
+        "C16t"
+    }
+    fn meta(&self) -> Meta {
+        Meta {
+            level: "exploration",
+            rule: "sessions of 2..60 helper calls (tabs_or_spaces / newline / next_newline / fixed, offsets 0..7, patterns taken from the upcoming input, extended or corrupted) on ONE DeferredReader over a SimSource (20..400 bytes, rarely 20 KB, over the whitespace/newline alphabet and its neighbours), advancing by part of the scanned span in between, so that the cursor sits deep inside the buffer, realigns and refills happen between and inside calls; each call is checked like a single C16 call, with positions taken relative to the stream; non-trivial iff a refill happened during at least one helper call; distinct = distinct (data, plan, session)",
+            assumptions: vec!["same reference scanner as the single-call check"],
+            real: vec!["flussab::text::{tabs_or_spaces, newline, next_newline, fixed}", "flussab::DeferredReader"],
+            stub: vec!["byte source (SimSource)"],
+        }
+    }
+    fn runs(&self, tier: Tier) -> u64 {
+        match (tier, cfg!(debug_assertions)) {
+            (Tier::Quick, true) => 400_000,
+            (Tier::Quick, false) => 200_000,
+            (Tier::Thorough, true) => 16_000_000,
+            (Tier::Thorough, false) => 8_000_000,
+        }
+    }
+    fn gen(&self, rng: &mut Rng, _tier: Tier) -> HelperLoopCase {
+        let len = if !cfg!(miri) && rng.chance(1, 300) {
+            rng.range(5_000, 40_000)
+        } else {
+            rng.range(20, 400)
+        };
+        const NEAR: &[u8] = b"\x08\x0b\x0c\x0e\x1f\x21\x89\x8a\x8d\xa0\x00\xff";
+        let data: Vec<u8> = (0..len)
+            .map(|_| match rng.below(14) {
+                0 => *rng.pick(NEAR),
+                1 if rng.chance(1, 2) => rng.next_u64() as u8,
+                _ => *rng.pick(b"   \t\t\r\n\n\naap"),
+            })
+            .collect();
+        let n = rng.range(2, 60);
+        let steps = (0..n)
+            .map(|_| {
+                (
+                    rng.below(4) as u8,
+                    rng.small(7) as u8,
+                    rng.below(8) as u8,
+                    rng.below(4) as u8,
+                )
+            })
+            .collect();
+        let interrupts = rng.weighted(&[6, 2, 1]) as u8;
+        HelperLoopCase {
+            chunk: *rng.pick(&[1usize, 1, 2, 3, 8, 16, 64, 16384]),
+            src: gen_plan(rng, len, &[], interrupts),
+            data,
+            steps,
+        }
+    }
+    fn exec(&self, case: &HelperLoopCase, st: &mut Stats) -> RunOut {
+        let data = Rc::new(case.data.clone());
+        let src = SimSource::new(data.clone(), case.src.clone());
+        let mut r = DeferredReader::from_read(src.clone());
+        r.set_chunk_size(case.chunk.max(1));
+        let mut abs = 0usize;
+        let mut violation = None;
+        let mut refills_inside = 0u32;
+        let mut t = Fnv::default();
+        for (i, &(h, o, psel, asel)) in case.steps.iter().enumerate() {
+            let o = o as usize;
+            let at = abs + o;
+            let rem: &[u8] = if at <= data.len() { &data[at..] } else { &[] };
+            let pattern: Vec<u8> = if h != 3 {
+                vec![]
+            } else {
+                match psel {
+                    0 => vec![],
+                    1 | 2 => rem[..rem.len().min(1 + psel as usize * 2)].to_vec(),
+                    3 => {
+                        let mut p = rem[..rem.len().min(3)].to_vec();
+                        p.push(b'q');
+                        p
+                    }
+                    4 if !rem.is_empty() => {
+                        let mut p = rem[..rem.len().min(4)].to_vec();
+                        let k = p.len() - 1;
+                        p[k] ^= 1;
+                        p
+                    }
+                    _ => b"a ".to_vec(),
+                }
+            };
+            let (want_abs, need_abs) = reference_helper(h, &data, at, &pattern);
+            let hname = HELPERS[h as usize % 4];
+            let log_before = src.state().log.len();
+            let pos_before = r.position();
+            let res = crash::catch(|| match h {
+                0 => text::tabs_or_spaces(&mut r, o),
+                1 => text::newline(&mut r, o),
+                2 => text::next_newline(&mut r, o),
+                _ => text::fixed(&mut r, o, &pattern),
+            });
+            st.steps += 1;
+            let ctx = |what: String| {
+                format!(
+                    "step #{i} {hname}(offset {o}{}) at stream position {abs} ({:?}...): {what}",
+                    if h == 3 { format!(", pattern {:?}", show_bytes(&pattern)) } else { String::new() },
+                    show_bytes(&data[abs.min(data.len())..(abs + 16).min(data.len())])
+                )
+            };
+            match res {
+                Err(p) => {
+                    violation = Some(Violation {
+                        check: "C16.panic",
+                        signature: format!("text::{hname} panics in a session"),
+                        detail: ctx(p.short()),
+                    });
+                }
+                Ok(off) => {
+                    t.u64(off as u64);
+                    if off + abs != want_abs {
+                        violation = Some(Violation {
+                            check: "C16.offset",
+                            signature: format!("text::{hname} returns a wrong offset in a session"),
+                            detail: ctx(format!("returned {off}, expected {}", want_abs - abs)),
+                        });
+                    } else if r.position() != pos_before {
+                        violation = Some(Violation {
+                            check: "C16.consumed",
+                            signature: format!("text::{hname} consumed input"),
+                            detail: ctx(String::new()),
+                        });
+                    } else {
+                        let s = src.state();
+                        if !s.budget_exceeded {
+                            for &(_, resc, delivered_before) in &s.log[log_before..] {
+                                if matches!(resc, CallRes::Ok(_)) {
+                                    refills_inside += 1;
+                                }
+                                if let Some(n) = need_abs {
+                                    if delivered_before >= n {
+                                        violation = Some(Violation {
+                                            check: "C16.over_request",
+                                            signature: format!("text::{hname} requests more input than needed to decide (session)"),
+                                            detail: ctx(format!("a read() ({resc:?}) was issued with {delivered_before} stream bytes already delivered, {n} suffice")),
+                                        });
+                                        break;
+                                    }
+                                }
+                            }
+                        }
+                    }
+                    if violation.is_none() {
+                        // advance by part of what was scanned (or one byte), if buffered
+                        let span = o + (want_abs - at);
+                        let want = match asel {
+                            0 => 0,
+                            1 => 1,
+                            2 => span,
+                            _ => span / 2 + 1,
+                        };
+                        let have = r.request(want).len();
+                        let n = want.min(have);
+                        r.advance(n);
+                        abs += n;
+                    }
+                }
+            }
+            if violation.is_some() {
+                break;
+            }
+        }
+        let s = src.state();
+        st.steps += s.c.calls;
+        st.add("fault.one_byte_read", s.c.one_byte_reads);
+        st.add("fault.interrupted", s.c.interrupted);
+        if s.budget_exceeded || s.c.calls_after_end > 0 && violation.is_none() && false {
+            violation = None;
+        }
+        t.u64(s.trace.0);
+        let mut k = Fnv::default();
+        k.bytes(&case.data);
+        k.u64(s.trace.0);
+        for st4 in &case.steps {
+            k.byte(st4.0 ^ (st4.1 << 2) ^ (st4.2 << 4) ^ (st4.3 << 6));
+        }
+        RunOut {
+            violation,
+            key: if refills_inside >= 1 { Some(k.0) } else { None },
+            trace: t.0,
+        }
+    }
+    fn shrink(&self, case: &HelperLoopCase) -> Vec<HelperLoopCase> {
+        let mut out = vec![];
+        for p in [SourceCfg::one_shot(), SourceCfg::bytewise()] {
+            if p.rank() < case.src.rank() {
+                let mut c = case.clone();
+                c.src = p;
+                out.push(c);
+            }
+        }
+        let n = case.steps.len();
+        if n > 1 {
+            let mut c = case.clone();
+            c.steps.truncate(n / 2);
+            out.push(c);
+        }
+        for i in (0..n).rev() {
+            let mut c = case.clone();
+            c.steps.remove(i);
+            out.push(c);
+        }
+        if case.data.len() > 1 {
+            let mut c = case.clone();
+            c.data.truncate(case.data.len() / 2);
+            out.push(c);
+        }
+        out
+    }
+    fn encode(&self, case: &HelperLoopCase, kv: &mut Kv) {
+        kv.put("case.data", hex(&case.data));
+        kv.put("case.data_readable", show_bytes(&case.data));
+        kv.put("case.chunk", case.chunk);
+        kv.put("case.src", case.src.encode());
+        kv.put(
+            "case.steps",
+            case.steps
+                .iter()
+                .map(|s| format!("{}:{}:{}:{}", s.0, s.1, s.2, s.3))
+                .collect::<Vec<_>>()
+                .join(","),
+        );
+    }
+    fn decode(&self, kv: &Kv) -> Option<HelperLoopCase> {
+        Some(HelperLoopCase {
+            data: kv.get_bytes("case.data")?,
+            chunk: kv.get_usize("case.chunk")?,
+            src: SourceCfg::decode(kv.get("case.src")?)?,
+            steps: kv
+                .get("case.steps")?
+                .split(',')
+                .filter(|s| !s.is_empty())
+                .map(|s| {
+                    let p: Vec<u8> = s.split(':').filter_map(|x| x.parse().ok()).collect();
+                    if p.len() == 4 {
+                        Some((p[0], p[1], p[2], p[3]))
+                    } else {
+                        None
+                    }
+                })
+                .collect::<Option<Vec<_>>>()?,
+        })
+    }
+    fn sample(&self, case: &HelperLoopCase) -> Json {
+        Json::obj(vec![
+            ("input", Json::s(show_bytes(&case.data))),
+            ("chunk", Json::U(case.chunk as u64)),
+            ("plan", Json::s(case.src.encode())),
+            ("session_steps", Json::U(case.steps.len() as u64)),
+        ])
+    }
+}
